@@ -552,12 +552,14 @@ class GeoBox(GeoBoxBase):
         elif bbox.crs is None:
             bbox = _norm_bbox(bbox.bbox, crs)
 
+        span_shape = False
         if isinstance(shape, (int, float)):
             if bbox.aspect > 1:
                 resolution = bbox.span_x / shape
             else:
                 resolution = bbox.span_y / shape
             shape = None
+            span_shape = True
 
         if resolution is not None:
             rx, ry = res_(resolution).xy
@@ -567,6 +569,11 @@ class GeoBox(GeoBoxBase):
             else:
                 offx, nx = snap_grid(bbox.left, bbox.right, rx, _snap.x, tol=tol)
                 offy, ny = snap_grid(bbox.bottom, bbox.top, ry, _snap.y, tol=tol)
+                if span_shape:
+                    # a pixel count was asked for: snapping moves the grid by a fraction of
+                    # a pixel but must not add a pixel, same as for a 2d shape
+                    _, nx = snap_grid(bbox.left, bbox.right, rx, None, tol=tol)
+                    _, ny = snap_grid(bbox.bottom, bbox.top, ry, None, tol=tol)
 
             affine = Affine.translation(offx, offy) * Affine.scale(rx, ry)
             return GeoBox((ny, nx), crs=bbox.crs, affine=affine)
